@@ -310,9 +310,103 @@ def rule_operator_table(ctx):
             ctx.check(R, "%s/bool/%s/covered" % ("infix" if arity == 2 else "prefix", op), op in seen_bool, "no arm for operator " + op)
 
 
+def eval_value_rules(ctx, R):
+    """Expression::propagate_values evaluated on one instance of every expression kind whose children answer with
+    preset values (known or unknown): what is stored as the node's value must be the reference rule - the operator
+    helper applied to both operand facts, the branch selected by a *known* condition, the environment's value of a
+    variable, the common value of all phi arguments - and nothing for every other kind or when a needed fact is unknown."""
+    import itertools
+
+    import passeval
+    from finfun import E, NONE, S, Unsupported
+    from passeval import O, V
+
+    try:
+        w = passeval.PassWorld([IRF_, VM, EI], EI)
+    except Exception:
+        return False
+    w.lenient_opaque = True
+    key_m = ("Expression", "propagate_values")
+    if key_m not in w.methods:
+        return False
+    fn = w.methods[key_m][0]
+
+    def FEv(tag, zero=False):
+        return V("ValueReduction", "FieldElement", value=("O", tag, (("is_zero", zero),)))
+
+    def BOv(b):
+        return V("ValueReduction", "Boolean", value=b)
+
+    def child(val):
+        return ("O", "child", (("propagate_values", ("PY", lambda env_: False)), ("value", ("PY", lambda: val)), ("is_constant", val != NONE)))
+
+    def some(v):
+        return S("Some", v)
+
+    bad = {}
+    n = 0
+
+    def run(vname, fields, envtab, want, label):
+        nonlocal n
+        stored = []
+        vk = ("O", "value_knowledge", (("set_reduces_to", ("PY", lambda v_: (stored.append(v_), True)[1])),))
+        meta = ("O", "meta", (("value_knowledge_mut", vk), ("value_knowledge", vk)))
+        node = V("Expression", vname, meta=meta, **fields)
+        envv = ("O", "value_environment", (("prime", O("prime")), ("get_variable", ("PY", lambda nm: envtab.get(nm[1], NONE)))))
+        try:
+            w.call_fn(fn, [node, envv])
+        except passeval.Panic as p_:
+            bad.setdefault("Expression::%s/value-rule" % vname, "%s: panics (%s)" % (label, p_))
+            return
+        n += 1
+        got = stored[-1] if stored else None
+        if (got is None) != (want is None) or (want is not None and got != want) or len(stored) > 1:
+            bad.setdefault("Expression::%s/value-rule" % vname, "%s: stores %s, reference %s" % (label, _show(got) if got is not None else "nothing", _show(want) if want is not None else "nothing"))
+
+    try:
+        A, B = FEv("a"), FEv("b")
+        RES = FEv("result")
+        for l, r in itertools.product([NONE, some(A)], [NONE, some(B)]):
+            seen_args = []
+            opv = ("O", "infix_op", (("propagate_values", ("PY", lambda x, y, e_, seen_args=seen_args: (seen_args.append((x, y)), some(RES) if x != NONE and y != NONE else NONE)[1])),))
+            run("InfixOp", {"lhe": child(l), "infix_op": opv, "rhe": child(r)}, {}, RES if (l != NONE and r != NONE) else None, "operands %s / %s" % ("known" if l != NONE else "unknown", "known" if r != NONE else "unknown"))
+            if seen_args and seen_args[-1] != (l, r):
+                bad.setdefault("Expression::InfixOp/value-rule", "the operator helper is given %s, not (left fact, right fact)" % (seen_args[-1],))
+        for r in (NONE, some(A)):
+            opv = ("O", "prefix_op", (("propagate_values", ("PY", lambda x, e_: some(RES) if x != NONE else NONE)),))
+            run("PrefixOp", {"prefix_op": opv, "rhe": child(r)}, {}, RES if r != NONE else None, "operand %s" % ("known" if r != NONE else "unknown"))
+        VT, VF = FEv("value-if-true"), FEv("value-if-false")
+        conds = [("unknown", NONE, None), ("true", some(BOv(True)), True), ("false", some(BOv(False)), False), ("non-zero", some(FEv("five", False)), True), ("zero", some(FEv("zero", True)), False)]
+        for (cl, cv, truth), t, f in itertools.product(conds, [NONE, some(VT)], [NONE, some(VF)]):
+            want = None
+            if truth is True and t != NONE:
+                want = VT
+            if truth is False and f != NONE:
+                want = VF
+            run("SwitchOp", {"cond": child(cv), "if_true": child(t), "if_false": child(f)}, {}, want, "condition %s, first branch %s, second branch %s" % (cl, "known" if t != NONE else "unknown", "known" if f != NONE else "unknown"))
+        VE = FEv("value-in-environment")
+        for known in (False, True):
+            run("Variable", {"name": O("x")}, {"x": some(VE)} if known else {}, VE if known else None, "variable %s in the environment" % ("known" if known else "unknown"))
+        V1, V2 = FEv("one"), FEv("two")
+        for tab, want, label in (({"p": some(V1), "q": some(V1)}, V1, "both arguments equal"), ({"p": some(V1), "q": some(V2)}, None, "arguments differ"), ({"p": some(V1)}, None, "second argument unknown"), ({"q": some(V1)}, None, "first argument unknown"), ({}, None, "both unknown")):
+            run("Phi", {"args": ("L", (O("p"), O("q")))}, tab, want, label)
+        for vname, fields in (("Call", {"name": "f", "args": ("L", (child(some(A)), child(some(B))))}), ("InlineArray", {"values": ("L", (child(some(A)),))}), ("Access", {"var": O("x"), "access": ("L", ())}), ("Update", {"var": O("x"), "access": ("L", ()), "rhe": child(some(A))})):
+            run(vname, fields, {"x": some(VE)}, None, "all operands known")
+    except Unsupported as u:
+        ctx.note("Expression::propagate_values is outside the evaluator's subset (%s): shape obligations apply" % u)
+        return False
+    ctx.floor(R, "value-rule worlds evaluated", n, 35)
+    for vname in ("InfixOp", "PrefixOp", "SwitchOp", "Variable", "Phi", "Call", "InlineArray", "Access", "Update"):
+        k_ = "Expression::%s/value-rule" % vname
+        ctx.check(R, k_, k_ not in bad, bad.get(k_, "the value stored for the node follows the reference rule in every combination of known / unknown operand facts"), site(EI, fn))
+    return True
+
+
 def rule_switch_phi(ctx):
     R = "C06.2"
     ctx.rule(R, "a ternary takes the value of the branch selected by a known condition (true / non-zero -> first branch, false / zero -> second) and nothing else; a phi gets a value only when every argument is known and all are equal")
+    if eval_value_rules(ctx, R):
+        return
     fn = find_fn(EI, "propagate_values", "ValueMeta for Expression")
     if fn is None:
         return ctx.missing(R, "Expression::propagate_values")
